@@ -15,7 +15,7 @@ EXHAUSTIVE = True
 RULE = ("all ordered pairs and triples of units within each of the 7 dimensions (41 units; exhaustive) x magnitudes "
         "{0, +-1, random in 1e-8..1e8 of either sign} (angles inside one turn, tangent units |angle|<1.5 rad); "
         "a case = (relation, dimension, units, magnitude); non-trivial when the units differ and the magnitude is non-zero")
-MUST_OBSERVE = ["pair_conversions", "round_trips", "triples", "units_seen", "inplace_routes"]
+MUST_OBSERVE = ["pair_conversions", "round_trips", "triples", "units_seen", "inplace_routes", "relabel_routes"]
 ASSUMPTIONS = ["R-SI table (vf/refs_si.py): exact inch, pound, grain, nautical mile, g0, conventional mmHg; "
                "Mil = 2pi/6400, Thousandth = 2pi/6000, OClock = 2pi/12",
                "float pi is taken as the library's pi (conversions compared in double precision)"]
@@ -119,8 +119,32 @@ def check_triple(ctx, dim, a, b, c, x):
                       via=via, direct=direct)
 
 
+def check_relabel_route(ctx, a, t, b, x):
+    """An angle of any size (beyond 90 degrees a tangent unit cannot *express* it, but may well be its display label): build in a,
+    re-label with << t (nothing is read in t), hand to Unit.b(q): the result read in b is the SI conversion of x from a to b."""
+    case = {"rel": "relabel", "dim": "Angular", "a": a, "t": t, "b": b, "x": x}
+    ctx.case(case, nontrivial=True, sample=False)
+    ctx.count("relabel_routes")
+    q = Unit[a](x)
+    q << Unit[t]        # pylint: disable=pointless-statement,expression-not-assigned
+    r = Unit[b](q)
+    got = r >> Unit[b]
+    want = si.convert("Angular", a, b, x)
+    if not abs(got - want) <= REL * abs(want) + 1e-12:
+        ctx.violation("relabel-route", f"q = Unit.{a}({x!r}); q << {t}; Unit.{b}(q) >> {b} = {got!r}, SI: {want!r}", case, got=got, want=want)
+    raw0 = Unit[a](x).raw_value
+    if r.raw_value != raw0 or q.raw_value != raw0:
+        ctx.violation("relabel-route.raw", f"q = Unit.{a}({x!r}); q << {t}; Unit.{b}(q): raw value {r.raw_value!r} / {q.raw_value!r}, was {raw0!r}", case)
+
+
 def run(ctx):
     n = 20 if ctx.tier == "quick" else 600
+    linear = [u for u in si.DIMENSIONS["Angular"] if u not in si.TANGENT]
+    for _ in range(ctx.share(400 if ctx.tier == "quick" else 20000)):
+        a, b = ctx.rng.choice(linear), ctx.rng.choice(linear)
+        t = ctx.rng.choice(si.DIMENSIONS["Angular"])
+        x_rad = ctx.rng.choice([ctx.rng.uniform(-3.1, 3.1), ctx.rng.uniform(1.6, 3.1), -ctx.rng.uniform(1.6, 3.1), ctx.rng.uniform(-1.5, 1.5)])
+        check_relabel_route(ctx, a, t, b, si.from_base("Angular", a, x_rad))
     # unit inventory: the library must have exactly the 41 units of the table, in the right dimension
     names = {u.name for u in Unit}
     expect = {u for units in si.DIMENSIONS.values() for u in units}
@@ -153,3 +177,5 @@ def replay(ctx, case):
         check_pair(ctx, case["dim"], case["a"], case["b"], case["x"])
     elif case["rel"] == "triple":
         check_triple(ctx, case["dim"], case["a"], case["b"], case["c"], case["x"])
+    elif case["rel"] == "relabel":
+        check_relabel_route(ctx, case["a"], case["t"], case["b"], case["x"])
